@@ -83,6 +83,15 @@ class MetaString(type):
         else:
             raise ValueError(f"{value} not a string")
 
+    def _rewrite(cls, buffer, offset, value):
+        """Overwrite an existing string; its capacity cannot change."""
+        size = Int64._from_buffer(buffer, offset)
+        info = cls._inspect_args(value)
+        if info.size > size:
+            raise ValueError(f"{value} to large to fit in {size}")
+        info.size = size
+        cls._to_buffer(buffer, offset, value, info)
+
     def _get_data(cls, buffer, offset):
         ll = Int64._from_buffer(buffer, offset)
         return buffer.to_bytearray(offset + 8, ll - 8)
